@@ -129,23 +129,34 @@ def main(argv):
             vf.log("  %5d  %s" % (n, k))
     rc = 0
     replay_path = None
-    if violations or extra_viol:
+    # a disagreement between the model and the implementation is a broken correspondence, not yet a failing input: the
+    # property oracle of the check (RFC oracle, relational check, crash, specification-built expectation ...) decides that
+    is_corr = lambda v: v[3].startswith("model/implementation disagreement")
+    prop_viol = [v for v in violations if not is_corr(v)]
+    corr_viol = [v for v in violations if is_corr(v)]
+    if prop_viol or extra_viol:
         rc = 1
-        if violations:
-            l, i, m, v = min(violations, key=lambda x: len(x[0]))
+        if prop_viol:
+            l, i, m, v = min(prop_viol, key=lambda x: len(x[0]))
             if hasattr(prop, "shrink"):
                 l, i, m, v = prop.shrink(l, i, m, v, vf)
             payload = {"property": pid, "seed": seed, "tier": tier, "cases": [l], "impl": i, "model": m, "verdict": v,
                        "broken_obligations": broken,
-                       "replay_cmd": "./check %s --replay <this file>" % pid, "total_violations": len(violations)}
+                       "replay_cmd": "./check %s --replay <this file>" % pid, "total_violations": len(prop_viol)}
         else:
             payload = dict(extra_viol[0], property=pid, seed=seed, tier=tier, broken_obligations=broken)
         replay_path = vf.write_replay(pid, payload)
         print("VIOLATION property=%s replay=%s" % (pid, replay_path))
-    elif broken:
+    elif broken or corr_viol:
         rc = 1
         payload = {"property": pid, "seed": seed, "tier": tier, "cases": [], "broken_obligations": broken,
-                   "note": "a proof/tie obligation no longer checks; the failing-input search (corpus + %d generated cases, 10x budget) found no input on which the implementation violates the property" % len(gen)}
+                   "note": "a proof / tie obligation or the model-implementation correspondence no longer checks; the failing-input search "
+                           "(corpus + %d generated cases%s) found no input on which the implementation violates the property oracle" % (len(gen), ", 10x budget" if broken else "")}
+        if corr_viol:
+            l, i, m, v = min(corr_viol, key=lambda x: len(x[0]))
+            payload.update({"broken_correspondence": "the extracted Coq model (Model/Driver.v, proved to satisfy the property) and the implementation "
+                                                     "disagree on %d of %d cases; smallest one in `cases`" % (len(corr_viol), len(lines)),
+                            "cases": [l], "impl": i, "model": m, "verdict": v, "replay_cmd": "./check %s --replay <this file>" % pid})
         replay_path = vf.write_replay(pid, payload)
         print("VIOLATION property=%s replay=%s no-failing-input-found" % (pid, replay_path))
 
